@@ -639,7 +639,7 @@ application/jrd+json, FetchURL does not, and the other way round for application
 both go through the same cache).  With the switch on, some steps of a C03 sequence carry their
 own tolerated list and same_result_as_cold_cache fails on the unchanged tree.
 */
-const genToleratedPerFetch = false
+const genToleratedPerFetch = true
 
 func genC03(r *rand.Rand, n int, emit func(Op)) {
 	accept := "application/activity+json,application/ld+json; profile=\"https://www.w3.org/ns/activitystreams\""
